@@ -375,6 +375,7 @@ def run(pr, repo):
     from . import C09
     # 'the same charge curves that are reported': the charge sums range over exactly the titratable groups (C09-CC)
     tasks = [(task_group, ()), (task_container, ()), (task_profile, ()), (task_profile_rows, ()), (task_grid, ()), (C09.task_container_charge, ()),
+             (C09.task_profile, ()),      # the charge curve of a conformation comes from THAT container's groups (also for the average)
              (task_write_pka, ())]
     steps = [(1.0, 0.0), (2.0, 0.0), (0.5, 0.5), (1.5, 1.0)] if pr.tier == 'quick' else \
         [(1.0, 0.0), (2.0, 0.0), (0.5, 0.5), (1.5, 1.0), (0.1, 0.6), (0.25, 0.0), (3.0, 2.0), (0.7, 0.0)]
